@@ -1082,7 +1082,12 @@ func (g *gen) function(idx int) {
 	g.line("_, _, _, _, _, _, _, _, _, _ = a, b, c, s, arr, sl, m, st, ps, pi")
 	g.line("_, _, _, _, _, _, _, _, _, _, _ = t, tv, e, i, fv, mv, bx, bv, ch, ch2, nilch")
 	g.line("_ = runtime.NumGoroutine")
-	if g.panicky {
+	if g.panicky && !g.o.Clean && g.o.Unwind && g.r.Chance(1, 3) {
+		// trigger-allowed mode only (known shape F7): the function does not recover its own panics, so a panic
+		// propagates through the deferred calls of its callers, which may suspend while it is in flight
+		g.f("func:leaky-panics-propagate")
+		g.line("// leaky: panics propagate to the caller")
+	} else if g.panicky {
 		g.f("func:panicky")
 		// the function recovers its own panics so that none crosses a function boundary
 		from := g.lines
